@@ -20,7 +20,7 @@ Textbook argument the tables feed (trusted, stated in the evidence): with the ma
 exhausted, and otherwise with the minimum of the heads; EMIT appends it; ADVANCE `iff E=lt and C=eq` moves every array
 holding it (at least the selected one: progress), so - the inputs being strictly increasing - every later head is
 larger and the output is strictly increasing and contains exactly the union."""
-from .cyfront import tname, walk
+from .cyfront import tname, tstr, walk
 from .kernels import unwrap, stmts
 
 
@@ -179,7 +179,7 @@ class KWay:
         self.types = {}
         for x in walk(cyfunc.node):
             if tname(x) == "NameNode" and getattr(x, "type", None) is not None and x.name not in self.types:
-                self.types[x.name] = str(x.type)
+                self.types[x.name] = tstr(x.type)
 
     # ------------------------------------------------------------------ helpers
     def add(self, status, part, line, construct, detail="", witness=None):
@@ -611,7 +611,7 @@ class KWay:
         # memoryview -> python array it views
         views = {}
         for x in walk(f.node.body):
-            if tname(x) == "SingleAssignmentNode" and tname(unwrap(x.lhs)) == "NameNode" and str(unwrap(x.lhs).type).endswith("[:]"):
+            if tname(x) == "SingleAssignmentNode" and tname(unwrap(x.lhs)) == "NameNode" and tstr(unwrap(x.lhs).type).endswith("[:]"):
                 src = x.rhs
                 while tname(src) in ("CoerceToMemViewSliceNode", "CoerceToTempNode", "CloneNode"):
                     src = src.arg
